@@ -1,4 +1,6 @@
 """Unit BUFFER (C20, sequential accounting only): BufferManager::{try_allocate_raw, release, try_allocate}, MemoryRegion::index."""
+import re
+
 from vlib import Unit
 
 SRC = 'crates/grafeo-common/src/memory/buffer/manager.rs'
@@ -103,8 +105,9 @@ def build(repo):
 
     def common(f, who):
         f.resub('E2', r'self\.allocated\.load\(Ordering::Relaxed\)', 'load_usize(&self.allocated)')
-        f.sub('E2', 'self.allocated.fetch_add(size, Ordering::Relaxed);', 'fetch_add_usize(&mut self.allocated, size);')
-        f.sub('E2', 'self.region_allocated[region.index()].fetch_add(size, Ordering::Relaxed);', 'let ri = region.index(); let ro = load_usize(&self.region_allocated[ri]); self.region_allocated.set(ri, ro.wrapping_add(size));')
+        # optional: if a counter update disappears from the source there is nothing to sequentialise and the proof must fail
+        f.resub_opt('E2', re.escape('self.allocated.fetch_add(size, Ordering::Relaxed);'), 'fetch_add_usize(&mut self.allocated, size);')
+        f.resub_opt('E2', re.escape('self.region_allocated[region.index()].fetch_add(size, Ordering::Relaxed);'), 'let ri = region.index(); let ro = load_usize(&self.region_allocated[ri]); self.region_allocated.set(ri, ro.wrapping_add(size));')
 
     POST_OK = ('final(self).allocated <= final(self).hard_limit && final(self).allocated >= size && final(self).allocated - size <= old(self).allocated'
                ' && final(self).region_allocated@[region.index_spec() as int] == old(self).region_allocated@[region.index_spec() as int] + size'
@@ -122,8 +125,8 @@ def build(repo):
 
     f = u.method(SRC, 'BufferManager', 'release', trait='GrantReleaser').D1()
     f.sub('E2', 'fn release(&self,', 'fn release(&mut self,')
-    f.sub('E2', 'self.allocated.fetch_sub(size, Ordering::Relaxed);', 'fetch_sub_usize(&mut self.allocated, size);')
-    f.sub('E2', 'self.region_allocated[region.index()].fetch_sub(size, Ordering::Relaxed);', 'let ri = region.index(); let ro = load_usize(&self.region_allocated[ri]); self.region_allocated.set(ri, ro.wrapping_sub(size));')
+    f.resub_opt('E2', re.escape('self.allocated.fetch_sub(size, Ordering::Relaxed);'), 'fetch_sub_usize(&mut self.allocated, size);')
+    f.resub_opt('E2', re.escape('self.region_allocated[region.index()].fetch_sub(size, Ordering::Relaxed);'), 'let ri = region.index(); let ro = load_usize(&self.region_allocated[ri]); self.region_allocated.set(ri, ro.wrapping_sub(size));')
     f.requires('held', 'size <= old(self).allocated && size <= old(self).region_allocated@[region.index_spec() as int]')
     f.ensures('exact', 'final(self).allocated == old(self).allocated - size'
               ' && final(self).region_allocated@[region.index_spec() as int] == old(self).region_allocated@[region.index_spec() as int] - size'
@@ -135,6 +138,7 @@ def build(repo):
     common(f, 'alloc')
     f.resub('E1', r'Some\(MemoryGrant::new\(\s*Arc::clone\(self\) as Arc<dyn GrantReleaser>,\s*size,\s*region,\s*\)\)', 'Some(make_grant(size, region))')
     f.requires('region_room', 'old(self).region_allocated@[region.index_spec() as int] + size <= usize::MAX')
+    f.before('self.check_pressure()', 'assert(/*@buffer::BufferManager::try_allocate::assert#granted_within_hard_limit*/ self.allocated <= self.hard_limit && self.allocated >= size && self.allocated - size <= old(self).allocated);')
     f.ensures('never_over_hard_limit', 'g is Some ==> final(self).allocated <= final(self).hard_limit'
               ' && final(self).region_allocated@[region.index_spec() as int] == old(self).region_allocated@[region.index_spec() as int] + size'
               ' && forall|k: int| 0 <= k < 4 && k != region.index_spec() ==> final(self).region_allocated@[k] == old(self).region_allocated@[k]')
